@@ -224,7 +224,7 @@ DsVal model_ds(const std::string &name, const std::string &arg, CallCtx &c) {
     else if (name == "sid") v.text = std::to_string(w.sid);
     else if (name == "tid") v.text = std::to_string(c.self_tid);
     else if (name == "tid_kernel") v.text = std::to_string(w.tid_kernel + c.thr);
-    else if (name == "cwd") { if (w.cwd_errno) { v.failed = true; v.text = ""; } else v.text = w.cwd; }
+    else if (name == "cwd") { if (w.cwd_errno || w.cwd.size() > 4096) { v.failed = true; v.text = ""; } else v.text = w.cwd; }   // PATH_MAX is what the documentation promises; a longer one is reported as a failure
     else if (name == "hostname") v.text = w.hostname;
     // a process that runs with descriptor 0 closed: while another thread of it has a file or socket open, that one sits on descriptor 0
     // (lowest free number) and the answer for it is "not a terminal" - the descriptor table is shared, both answers are true to the state
